@@ -10,6 +10,7 @@ def run(tier):
         "addresses are opaque tokens: net.IP.String / To4 / IsLinkLocalUnicast are uninterpreted functions of the token, String is injective on the three tokens used",
         "REFERENCE: harness/mdns/c17.go computes the expected map (valid record: five mandatory keys, txtvers=1, not the local SKI, boolean register; remove deletes; add merges usable addresses without duplicates; unknown add inserts) and the post-map of the real processMdnsEntry must equal it; since the pre-map is arbitrary (0..2 entries, 0..2 addresses each, invariant: usable and duplicate-free) the step covers event histories of any length",
         "CUT: util.DeepCopy (json round trip of the snapshot) is a no-op in the engine",
+        "part 2b (H_C17_OrderReq): every program of three operations from {add one, add two, remove one, RequestMdnsEntries} with the report goroutines interleaved under the delay-bounded scheduler: after settling the last delivered list has the size of the final set",
         "part 2 (H_C17_Order): two changing events, the report goroutines interleaved under the delay-bounded scheduler: the last list delivered is the final set",
     ]
     c.bounds = {"pre_entries_max": 2, "addresses_per_entry_max": 2, "event_addresses_max": 2, "address_tokens": 3, "loop_unwind": 80}
@@ -25,6 +26,12 @@ def run(tier):
     d = 5 if tier == "thorough" else 4
     res2, meta2 = lib.run_engine("mdns", ["H_C17_Order"], sched="explore", preempt=d, cuts=MDNS_CUTS, loop=80)
     c.add_run("report-order", res2, meta2)
+    d3 = 3 if tier == "thorough" else 2
+    res3, meta3 = lib.run_engine("mdns", ["H_C17_OrderReq"], sched="explore", preempt=d3, cuts=MDNS_CUTS, loop=80, paths=3000000)
+    c.add_run("report-order-with-requests", res3, meta3)
+    c.bounds["delay_bound_request_programs"] = d3
+    res2 = dict(res2 or {})
+    res2.update(res3 or {})
     c.bounds["changing_events_in_flight"] = 2
     c.bounds["delay_bound"] = d
     for e, r in (res2 or {}).items():
